@@ -293,6 +293,50 @@ def run(ctx: Ctx) -> int:
             why_bad="the action's own sub_add_kwargs dict (or a set inside it) is written while a value is adapted: the entry stays for every later parse on this parser",
         )
 
+    # copy-on-write of the parser's own tables: a local that aliases an attribute of a long-lived object
+    # (`x = self.attr [or {}]`) is rebound to a copy on every path before it is written in place
+    MUTATORS = {"update", "append", "add", "extend", "pop", "clear", "setdefault", "insert", "remove", "discard", "popitem", "sort", "reverse"}
+    FRESH_CALLS = {"copy", "deepcopy", "dict", "list", "set", "sorted", "clone"}
+    n_alias = 0
+    for fq, fn in repo.all_funcs():
+        aliases: Dict[str, List[ast.Assign]] = {}
+        for s in walk_local(fn):
+            if isinstance(s, ast.Assign) and len(s.targets) == 1 and isinstance(s.targets[0], ast.Name):
+                v = s.value.values[0] if isinstance(s.value, ast.BoolOp) and isinstance(s.value.op, ast.Or) else s.value
+                if isinstance(v, ast.Attribute) and dotted(v) and root_name(v) in ("self", "parser", "action", "cls"):
+                    aliases.setdefault(s.targets[0].id, []).append(s)
+        for x, defs in aliases.items():
+            muts: List[ast.AST] = [c for c in calls_in(fn) if call_leaf(c) in MUTATORS and isinstance(c.func, ast.Attribute) and isinstance(c.func.value, ast.Name) and c.func.value.id == x]
+            for s in walk_local(fn):
+                if isinstance(s, (ast.Assign, ast.AugAssign, ast.Delete)):
+                    tgs = [s.target] if isinstance(s, ast.AugAssign) else s.targets
+                    if any(isinstance(t, ast.Subscript) and isinstance(t.value, ast.Name) and t.value.id == x for t in tgs):
+                        muts.append(s)
+            if not muts:
+                continue
+            gf = ctx.cfg(fn)
+            fresh = [
+                s
+                for s in walk_local(fn)
+                if isinstance(s, ast.Assign)
+                and any(isinstance(t, ast.Name) and t.id == x for t in s.targets)
+                and s not in defs
+                and (isinstance(s.value, (ast.Dict, ast.List, ast.Set, ast.DictComp, ast.ListComp, ast.SetComp)) or (isinstance(s.value, ast.Call) and call_leaf(s.value) in FRESH_CALLS))
+            ]
+            for m in muts:
+                n_alias += 1
+                ok = gf.must_pass(gf.cn(fresh), gf.cn(defs), gf.cn(m), exclude_labels={"e"}, strict=True)
+                path = None if ok else gf.find_path(gf.cn(defs), gf.cn(m), removed=gf.cn(fresh), exclude_labels={"e"})
+                ctx.oblige(
+                    "C09.c",
+                    ok,
+                    m,
+                    f"`{x}` (read from `{ast.unparse(defs[0].value)}`) is rebound to a copy on every path before this in-place write" if ok else f"`{x}` can still be the object stored in `{ast.unparse(defs[0].value)}` when it is written in place here: the long-lived object's own table keeps the entry for every later call",
+                    fn=fn,
+                    details={"path": gf.describe_path(path)},
+                )
+    ctx.floor("C09.c-alias-writes", n_alias, 2)
+
     terminal = []
     for q in sorted(ctx.noreturn.noreturn_quals):
         fn = repo.func(q)
